@@ -11,11 +11,15 @@ EXPLANATION = (
     "outcome for ALL argument values is compared with the reference meaning isinstance(value, T) = isinstance(value, bound) and documented condition, "
     "built from the declared types with the same uninterpreted value atoms: whichever strategy (if-chain, table, counting) the generator picked, a "
     "handler runs iff its declared type matches. R (bounded): native suite evaluating isinstance(value, T) against dispatch for a value corpus. The "
-    "table path's key list was wrong for multi-valued literals (F-keys, fixed); the bound taken from the first value is an open finding (F-bound)."
+    "table path's key list was wrong for multi-valued literals (F-keys, fixed); the bound taken from the first value is an open finding (F-bound). "
+    "U (third session): the documented meaning of each built-in value type is proved of the real check bodies - Equals.check (any number of listed values), "
+    "Equals.get_keys, ProductType.check, StartsWith, EndsWith, HasKey, Regexp.check, Sequence/Collection/MappingFastCheck (contracts/valuetypes_c.py); "
+    "MultiTypeMap.register flags a method value-dependent iff some positional or keyword entry is (any number of entries), resolve wraps exactly the "
+    "flagged ranks (any number of ranks), wrap_dependent generates from exactly the arguments of this call; NameDatabase (the symbols of generated code)."
 )
 ASSUMPTIONS = ["dict lookup on the table path is == with consistent hash for the literal value types", "== between an argument and distinct literal values holds for at most one of them"]
 TRUSTED = ["compile/exec of emitted text", "re, str.startswith/endswith and `in` as uninterpreted atoms shared by emitted code and reference"]
-BOUNDS = {"families": "native/gen_dependent.py"}
+BOUNDS = {"families": "native/gen_dependent.py: 52 hand-picked families plus every set of <=4 (thorough: 5) conditions out of seven at one position; functions and methods with self"}
 
 
 def tasks(tier):
